@@ -266,6 +266,7 @@ static void check_case(vg::Src& s, vh::Ctx& c)
     // the same eroder object re-used with another diffusivity (scalar <-> array) and field:
     // precomputed factors and scratch arrays must not leak from the previous step
     bool reused = false;
+    std::vector<double> Kcur = K, elast;
     if (s.chance(110))
     {
         reused = true;
@@ -311,8 +312,40 @@ static void check_case(vg::Src& s, vh::Ctx& c)
                     c.fail("reused-eroder-differs-from-adi", "second step on the same eroder (K " + std::string(new_array ? "array" : "scalar") + "), node (" + std::to_string(r) + "," + std::to_string(cc) + "): erosion " + vg::fmt(e2[i]) + " but the scheme gives " + vg::fmt(static_cast<double>(want)));
             }
         c.label("eroder-reused");
+        Kcur = K2;
     }
     (void) reused;
+    if (s.chance(50))
+    {
+        // the array returned by the previous step handed back, BY REFERENCE, as the elevation of
+        // the next step (erode(erode(h, dt), dt)): an elevation field like any other, its storage
+        // happens to be the eroder's own result buffer (seeded change C14-F)
+        double dt3 = std::pow(10.0, static_cast<int>(s.range(0, 6)) - 3) * (0.5 + s.unit());
+        elast = ero->erode(z, dt);  // (other steps ran on this eroder in between: its buffer holds their result)
+        auto e3 = ero->erode_last(dt3);
+        auto ref3 = model_adi<LD>(nr, nc, dy, dx, elast, Kcur, dt3);
+        auto ref3_d = model_adi<double>(nr, nc, dy, dx, elast, Kcur, dt3);
+        LD att3 = 0, zmax3 = 0, kmax3 = 0, kmin3 = 1e300L;
+        for (size_t i = 0; i < n; ++i)
+        {
+            att3 = std::max<LD>(att3, fabsl(static_cast<LD>(ref3_d[i]) - ref3[i]));
+            zmax3 = std::max<LD>(zmax3, fabsl(elast[i]));
+            kmax3 = std::max<LD>(kmax3, Kcur[i]);
+            kmin3 = std::min<LD>(kmin3, Kcur[i]);
+        }
+        LD amp3 = 1 + 4 * fc * kmax3 * dt3 / (1 + 4 * fr * kmin3 * dt3) + 4 * fr * kmax3 * dt3 / (1 + 4 * fc * kmin3 * dt3);
+        LD tol3 = std::max<LD>(1000 * static_cast<LD>(DBL_EPSILON) * zmax3 * amp3 * size_factor, 1000 * att3) + 1e-300L;
+        for (size_t r = 0; r < nr; ++r)
+            for (size_t cc = 0; cc < nc; ++cc)
+            {
+                size_t i = r * nc + cc;
+                bool border = r == 0 || cc == 0 || r + 1 == nr || cc + 1 == nc;
+                LD want = border ? 0 : static_cast<LD>(elast[i]) - ref3[i];
+                if (border ? e3[i] != 0.0 : !(fabsl(static_cast<LD>(e3[i]) - want) <= tol3))
+                    c.fail("own-output-as-input-differs-from-adi", "step on the array returned by the previous step, node (" + std::to_string(r) + "," + std::to_string(cc) + "): erosion " + vg::fmt(e3[i]) + " but the scheme applied to that field gives " + vg::fmt(static_cast<double>(want)) + " (dt=" + vg::fmt(dt3) + ", tolerance " + vg::fmt(static_cast<double>(tol3)) + ", amplification " + vg::fmt(static_cast<double>(amp3)) + ", input magnitude " + vg::fmt(static_cast<double>(zmax3)) + ")");
+            }
+        c.label("own-output-as-input");
+    }
     LD stiff = std::max(4 * fr * kmax * dt, 4 * fc * kmax * dt);
     c.nontrivial = (nr != nc || dy != dx) && kcls >= 2 && stiff >= 0.1L && amp <= 1e6L * size_factor;
     c.label(kcls == 0 ? "K=scalar" : kcls == 1 ? "K=uniform-array" : kcls == 2 ? "K=smooth" : "K=rough");
